@@ -26,6 +26,7 @@ def dump (st : St) : String :=
 
 def step' (st : St) : List String → St × String
   | ["reset", d] => (init (d = "f" ∨ d = "g"), "ok")
+  | ["reset", d, "2u"] => (init (d = "g"), "ok")     -- a grouped token named with two underscores: the same protocol
   | ["fund", u, n] => match n.toInt? with
     | some n => ({ st with s := { st.s with srcA := upd st.s.srcA u (st.s.srcA u + n) },
                            funded := (u, n) :: st.funded }, "ok")
